@@ -7,9 +7,11 @@ package main
 
 import (
 	"errors"
+	"fmt"
 	"net/http/httptest"
 	"os"
 	"path/filepath"
+	"strings"
 	"sync"
 	"syscall"
 
@@ -23,6 +25,7 @@ import (
 	"github.com/dadrus/heimdall/internal/rules/provider/filesystem"
 	"github.com/dadrus/heimdall/internal/rules/rule"
 	"github.com/dadrus/heimdall/internal/watcher"
+	"github.com/dadrus/heimdall/internal/x/radixtree"
 )
 
 // the mechanism catalogue of the check; ids are what the generated rule sets refer to
@@ -281,6 +284,155 @@ func c19RuleSet(c map[string]any) (any, error) {
 	}
 
 	res["state1"] = c19Probe(repo, probes)
+
+	return res, nil
+}
+
+// c19Lookup answers probes ("/path" or "METHOD /path") with the rule found: "<file>/<rule id>@<n>", n being the step
+// after which this very rule object was seen first (so that a rule replaced by an equally named one shows), "-" if
+// no rule is found, "panic" if the lookup panics.
+type c19Lookup struct {
+	repo  rule.Repository
+	born  map[rule.Rule]int
+	files map[string]string
+}
+
+func (l *c19Lookup) answers(step int, probes []string) []string {
+	res := make([]string, 0, len(probes))
+
+	for _, p := range probes {
+		method, target := "GET", p
+		if m, t, ok := strings.Cut(p, " "); ok {
+			method, target = m, t
+		}
+
+		var answer string
+
+		cls, _ := c19Guard(func() error {
+			req := httptest.NewRequest(method, "http://heimdall.test"+target, nil)
+
+			rul, err := l.repo.FindRule(requestcontext.New(req))
+			if err != nil {
+				answer = "-"
+
+				return nil
+			}
+
+			if _, known := l.born[rul]; !known {
+				l.born[rul] = step
+			}
+
+			src := strings.TrimSuffix(filepath.Base(strings.TrimPrefix(rul.SrcID(), "file_system:")), ".yaml")
+			answer = fmt.Sprintf("%s/%s@%d", src, rul.ID(), l.born[rul])
+
+			return nil
+		})
+		if cls == "panic" {
+			answer = "panic"
+		}
+
+		res = append(res, answer)
+	}
+
+	return res
+}
+
+// c19Stage: where a change was rejected (evidence only, never compared)
+func c19Stage(err error) string {
+	switch {
+	case err == nil:
+		return ""
+	case errors.Is(err, radixtree.ErrInvalidPath):
+		return "insertion: path expression"
+	case errors.Is(err, radixtree.ErrConstraintsViolation):
+		return "insertion: path of another source"
+	case errors.Is(err, radixtree.ErrFailedToDelete):
+		return "insertion: delete"
+	case errors.Is(err, rules.ErrUnsupportedRuleSetVersion):
+		return "version"
+	case strings.Contains(err.Error(), "failed to parse"):
+		return "decoding"
+	default:
+		return "factory"
+	}
+}
+
+// c19RuleHistory: {"steps": [{"file": name, "text": text|null}], "probes": [..]}
+func c19RuleHistory(c map[string]any) (any, error) {
+	c19EnvOnce.Do(c19SetupRulesEnv)
+
+	if c19Env.err != nil {
+		return nil, errors.New("loaders: environment: " + c19Env.err.Error())
+	}
+
+	dir, err := c19TempDir()
+	if err != nil {
+		return nil, err
+	}
+
+	defer os.RemoveAll(dir)
+
+	repo := rules.VerifC19NewRepository(c19Env.factory)
+	proc := rules.NewRuleSetProcessor(repo, c19Env.factory)
+
+	conf := *c19Env.conf
+	conf.Providers.FileSystem = map[string]any{"src": dir, "watch": false}
+
+	prov, err := filesystem.NewProvider(&conf, proc, zerolog.Nop())
+	if err != nil {
+		return nil, err
+	}
+
+	probes := getStrs(c, "probes")
+	look := &c19Lookup{repo: repo, born: map[rule.Rule]int{}}
+	outcomes, stages, answers := []any{}, []any{}, []any{look.answers(0, probes)}
+	exists := map[string]bool{}
+	res := map[string]any{}
+
+	for n, raw := range getArr(c, "steps") {
+		step, _ := raw.(map[string]any)
+		path := filepath.Join(dir, getStr(step, "file")+".yaml")
+		op := fsnotify.Write
+
+		if text, ok := step["text"].(string); ok {
+			if err = os.WriteFile(path, c19Latin1(text, getBool(step, "latin1")), 0o600); err != nil {
+				return nil, err
+			}
+
+			if !exists[path] {
+				op = fsnotify.Create
+			}
+
+			exists[path] = true
+		} else {
+			if exists[path] {
+				if err = os.Remove(path); err != nil {
+					return nil, err
+				}
+			}
+
+			exists[path] = false
+			op = fsnotify.Remove
+		}
+
+		var cause error
+
+		cls, detail := c19Guard(func() error {
+			cause = prov.VerifC19Changed(path, op)
+
+			return cause
+		})
+
+		outcomes = append(outcomes, cls)
+		stages = append(stages, c19Stage(cause))
+		answers = append(answers, look.answers(n+1, probes))
+
+		if cls == "panic" {
+			res["detail"] = detail
+		}
+	}
+
+	res["outcomes"], res["answers"], res["why"] = outcomes, answers, stages
 
 	return res, nil
 }
